@@ -22,7 +22,7 @@ def _count(k):
 def _fail(k, detail):
     _count(k + ":failed")
     if len(FAILURES) < 20:
-        FAILURES.append({"contract": k, "detail": str(detail)[:400]})
+        FAILURES.append({"contract": k, "detail": detail if isinstance(detail, dict) else str(detail)[:400]})
 
 
 # ---------------------------------------------------------------- conditions (named functions)
@@ -110,7 +110,7 @@ def k8_rhs_matrix_expanded(ode, result):
     """K8 sympytools.rhs_matrix: no intermediate symbol is free in the result; one row per state in sorted_states order."""
     try:
         _count("K8")
-        inter = {x.symbol for x in ode.intermediates}
+        inter = {x.symbol for x in tuple(ode.intermediates) + tuple(ode.state_derivatives)}
         left = result.free_symbols & inter
         if left:
             _fail("K8", f"intermediates left in rhs_matrix: {sorted(map(str, left))[:5]}")
@@ -118,6 +118,74 @@ def k8_rhs_matrix_expanded(ode, result):
             _fail("K8", f"rhs_matrix has {result.shape[0]} rows for {len(ode.sorted_states())} states")
     except Exception:
         _count("K8:error")
+    return True
+
+
+def k3_no_clashing_definitions(result):
+    """K3 ode.make_ode: if it returns, no name is carried by atoms of two kinds, and no two atoms with the same
+    name differ in value / resolved expression."""
+    try:
+        _count("K3")
+        seen = {}
+        for kind, items in (("state", result.states), ("parameter", result.parameters), ("intermediate", result.intermediates), ("derivative", result.state_derivatives)):
+            for a in items:
+                val = getattr(a, "expr", None) if kind in ("intermediate", "derivative") else getattr(a, "value", None)
+                seen.setdefault(a.name, []).append((kind, str(val)))
+        for n, lst in seen.items():
+            if len({k for k, _ in lst}) > 1:
+                _fail("K3", f"{n} is defined as {sorted({k for k, _ in lst})}")
+                return True
+            if len({v for _, v in lst}) > 1:
+                _fail("K3", f"{n} has {len({v for _, v in lst})} different definitions: {sorted({v for _, v in lst})[:2]}")
+                return True
+    except Exception:
+        _count("K3:error")
+    return True
+
+
+def k7_singularities_removed(expr, singularities, result):
+    """K7 atoms.remove_singularities: at regular points the result equals expr; at each finite singular value it
+    equals that singularity's replacement (numerically, 30 digits)."""
+    try:
+        import random
+
+        import sympy
+
+        _count("K7")
+        fin = [s for s in singularities if not s.is_infinite]
+        syms = sorted(expr.free_symbols, key=str)
+        rnd = random.Random(len(str(expr)))
+        grid = [0.3125, -0.4375, 1.1875, 2.3125, -1.6875, 0.8125]
+
+        def num(e, sub):
+            v = sympy.N(e.subs(sub), 30)
+            return complex(v) if v.is_number and v.is_finite else None
+
+        bad_vals = {float(s.value) for s in fin if s.value.is_number}
+        for _ in range(4):
+            sub = {x: sympy.Float(rnd.choice([g for g in grid if g not in bad_vals])) for x in syms}
+            a, b = num(expr, sub), num(result, sub)
+            if a is None or b is None:
+                continue
+            _count("K7:regular_points")
+            if abs(a - b) > 1e-9 * max(1.0, abs(a)):
+                _fail("K7", {"where": "regular point", "n_finite_singularities": len(fin), "expr": str(expr)[:150], "point": {str(k): float(v) for k, v in sub.items()}, "expr_value": str(a), "result_value": str(b),
+                             "ratio": (b / a).real if a != 0 else None})
+                return True
+        for sg in fin:
+            sub = {x: sympy.Float(rnd.choice(grid)) for x in syms if x != sg.symbol}
+            sub[sg.symbol] = sg.value
+            want, got = num(sg.replacement, sub), None
+            try:
+                got = num(result, sub)
+            except Exception:
+                got = None
+            _count("K7:singular_points")
+            if want is not None and (got is None or abs(got - want) > 1e-9 * max(1.0, abs(want))):
+                _fail("K7", {"where": "singular value", "n_finite_singularities": len(fin), "expr": str(expr)[:150], "symbol": str(sg.symbol), "value": str(sg.value), "replacement": str(want), "result_value": str(got)})
+                return True
+    except Exception:
+        _count("K7:error")
     return True
 
 
@@ -156,6 +224,20 @@ def attach():
         ATTACHED["K1"] = _rebind("gotranx.ode", "sort_assignments", new, orig)
     except Exception:
         ATTACHED["K1"] = 0
+    try:
+        orig = gode.make_ode
+        new = icontract.ensure(k3_no_clashing_definitions, error=ContractBroken)(orig)
+        ATTACHED["K3"] = _rebind("gotranx.ode", "make_ode", new, orig)
+    except Exception:
+        ATTACHED["K3"] = 0
+    try:
+        import gotranx.atoms as gat
+
+        orig = gat.remove_singularities
+        new = icontract.ensure(k7_singularities_removed, error=ContractBroken)(orig)
+        ATTACHED["K7"] = _rebind("gotranx.atoms", "remove_singularities", new, orig)
+    except Exception:
+        ATTACHED["K7"] = 0
     try:
         orig = gode.ODE.sorted_assignments
         gode.ODE.sorted_assignments = icontract.ensure(k4_remove_unused_is_a_filter, error=ContractBroken)(orig)
